@@ -904,6 +904,14 @@ func verifLenIsHeaderPlusLength(p *PathAttribute) bool {
 //@   claims at-call
 //@   at-call append(buf, uint8(nexthoplen)) requires nexthoplen == mpNHLen(safi, isNexthopIPv6 ? 16*len(nexthopAddrs) : 4*len(nexthopAddrs), len(nexthopAddrs))
 
+// the length in the header that is written is the length of what is written (and has passed the size check of
+// the session, C11), whatever Header.Len held before - a parsed message carries the length it was received with
+//@ props C04 C11
+//@ func (*BGPMessage).Serialize
+//@   requires msg != nil
+//@   claims at-call
+//@   at-call msg.Header.Serialize( requires int(msg.Header.Len) == BGP_HEADER_LENGTH + len(b) && called(IsExtendedMessageSerialization)
+
 // EVPN I-PMSI route (type 9): what the encoder writes is what Len() announces - RD (8) and Ethernet tag (4), then the
 // extended community directly after them - and the decoder knows the route type its own encoder emits
 //@ props C04
